@@ -265,6 +265,7 @@ extern "C" ssize_t __wrap_send(int fd, const void *buf, size_t len, int flags) {
 }
 
 extern "C" int __real_close(int);
+extern "C" int __real_open(const char *, int, ...);
 extern "C" int __wrap_close(int fd) {
   if (fd >= SIMFD_BASE) {
     if (!fds.count(fd)) { errno = EBADF; ev("close_badfd %d", fd); S.stats["badfd"]++; return -1; }
@@ -275,6 +276,7 @@ extern "C" int __wrap_close(int fd) {
     fds.erase(fd);
     return 0;
   }
+  files_close(fd);
   return __real_close(fd);
 }
 
@@ -300,7 +302,7 @@ extern "C" ssize_t __wrap_read(int fd, void *buf, size_t n) {
     }
     errno = EBADF; return -1;
   }
-  return __real_read(fd, buf, n);
+  return files_read(fd, buf, n);
 }
 extern "C" ssize_t __real_write(int, const void *, size_t);
 extern "C" ssize_t __wrap_write(int fd, const void *buf, size_t n) {
@@ -319,7 +321,7 @@ extern "C" ssize_t __wrap_write(int fd, const void *buf, size_t n) {
     ev("cons_tx %s", hex_enc(buf, n).c_str());
     return (ssize_t)n;
   }
-  return __real_write(fd, buf, n);
+  return files_write(fd, buf, n);
 }
 
 // ------------------------------------------------------------------ epoll
@@ -412,6 +414,22 @@ static void do_step(const Step &st) {
   } else if (op == "fault") {   // fault <k> [kind]: inject an LPC error at the k-th instruction from now
     S.fault_countdown = atol(st.a[0].c_str());
     S.fault_kind = st.a.size() > 1 ? st.a[1] : "error";
+  } else if (op == "fsarm") {        // fsarm <n>: the disk stops at the n-th mutating file call from now
+    files_arm_stop(atol(st.a[0].c_str()));
+  } else if (op == "fsdisarm") {
+    ev("fs_mut_calls %ld", files_mut_calls());
+    files_arm_stop(-1);
+  } else if (op == "writefile") {    // writefile <path> <content>: somebody edits a mudlib file (mtime = now)
+    std::string path = st.a[0];
+    while (!path.empty() && path[0] == '/') path.erase(0, 1);
+    int fd = __real_open(path.c_str(), O_WRONLY | O_CREAT | O_TRUNC, 0644);
+    if (fd >= 0) { __real_write(fd, st.a[1].data(), st.a[1].size()); __real_close(fd); }
+    files_set_mtime(path, S.base_time + (time_t)(S.vus / 1000000));
+    ev("writefile %s %d", path.c_str(), fd >= 0);
+  } else if (op == "touch") {        // touch <path> [delta_s]
+    std::string path = st.a[0];
+    while (!path.empty() && path[0] == '/') path.erase(0, 1);
+    files_set_mtime(path, S.base_time + (time_t)(S.vus / 1000000) + (st.a.size() > 1 ? atol(st.a[1].c_str()) : 0));
   } else if (op == "firetimer") {  // firetimer <k> <dt_us>: the timer thread fires in the middle of an evaluation, k instructions from now
     S.timer_countdown = atol(st.a[0].c_str());
     S.timer_dt = st.a.size() > 1 ? atol(st.a[1].c_str()) : 2000000;
